@@ -83,10 +83,15 @@ def register_build_cleanup(so):
         mpu.Finalize(None, shutil.rmtree, args=(d, True), exitpriority=0)
 
 
-def _call(case):
+def _call(case, both=False):
+    """the annealer is called twice on the same model object (same arguments): a call must not leave the model in
+    a state that makes the next results wrong. Returns the second result, or both."""
     q = fresh_qubovert()
     fn = getattr(q.sim, "anneal_" + case["fn"])
-    return fn(_build(case), **case["kw"])
+    M = _build(case)
+    r1 = fn(M, **case["kw"])
+    r2 = fn(M, **case["kw"])
+    return (r1, r2) if both else r2
 
 
 # ---------------------------------------------------------------------------------------------
@@ -214,12 +219,16 @@ def _check(case, aspects):
                         key="raises:matrix-without-variables", observed="%s: %s" % (type(e).__name__, e),
                         required="%d results with empty state and value %r"
                                  % (max(case["kw"].get("num_anneals", 1), 0), case["terms"].get((), 0)))
+        results = [res]
     else:
-        res = _call(case)
-    for a in aspects:
-        f = a(case, res)
-        if f is not None:
-            return f
+        results = _call(case, both=True)
+    for i, res in enumerate(results):
+        for a in aspects:
+            f = a(case, res)
+            if f is not None:
+                if i and isinstance(f, Fail):
+                    f.msg = "second call on the same model object: " + f.msg
+                return f
     return None
 
 
